@@ -20,6 +20,7 @@ ENUM = {
     "quick":    [dict(module="MC_RangeDim", cfg="MC_RangeDim_quick.cfg", workers=8)],
     "thorough": [dict(module="MC_RangeDim", cfg="MC_RangeDim_thorough.cfg", workers=16, coverage=True)],
 }
+PROOFS = ["proofs/P_RangeDim.tla"]    # thorough tier: bracket uniqueness, right-bound-minus-one, whole count, trim law for all integers (tlapm)
 POOL = 12
 CHUNK = 2500
 RULE = ("every call of the TLA+ enumeration: (constructor, step, start, stop in quarter steps, way the stop double is formed); "
